@@ -196,6 +196,20 @@ func fromStrconv(v ssa.Value, seen map[ssa.Value]bool) bool {
 					}
 				}
 			}
+			// an element of a local array / slice: any element stored into it
+			if ia, ok := x.X.(*ssa.IndexAddr); ok {
+				if a, ok := ia.X.(*ssa.Alloc); ok && a.Referrers() != nil {
+					for _, r := range *a.Referrers() {
+						if ia2, ok := r.(*ssa.IndexAddr); ok {
+							for _, s := range core.StoresTo(ia2) {
+								if fromStrconv(s.Val, seen) {
+									return true
+								}
+							}
+						}
+					}
+				}
+			}
 		}
 	case *ssa.Call:
 		if callee := x.Call.StaticCallee(); callee != nil && callee.Pkg != nil && callee.Pkg.Pkg.Path() == "strconv" {
